@@ -56,6 +56,30 @@ func checkC03(c ArgvCase, st *evid.Stats) error {
 	}
 	m := Model(c.Spec, c.Argv)
 	if m.Unspecified != "" {
+		// the values are unspecified, conservation is not: a token holding an unknown option stays in remaining (Pass/Warn)
+		if len(m.MustRemain) > 0 && (m.MustRemainMode != UnkFail || m.MustRemainRO) {
+			out := Run(c.Spec, c.Argv, RunOpts{})
+			if out.Panic == "" && !out.ParseFailed {
+				st.Class("unknown-letter-after-a-value-taking-letter-in-one-bundle")
+				if m.MustRemainRO {
+					st.Class("unknown-letter-after-a-value-taking-letter-in-one-bundle:require-order-level")
+				}
+				for _, ix := range m.MustRemain {
+					found := false
+					for _, r := range out.Remaining {
+						if r == c.Argv[ix] {
+							found = true
+						}
+					}
+					if !found {
+						return failf("%s mode (require-order at that level: %v): token %q holds an unknown option but is missing from remaining %s (argv %s)", unkNames[m.MustRemainMode], m.MustRemainRO, c.Argv[ix], q(out.Remaining), q(c.Argv))
+					}
+				}
+				if !isSubsequence(out.Remaining, c.Argv) {
+					return failf("remaining %s is not a subsequence of argv %s", q(out.Remaining), q(c.Argv))
+				}
+			}
+		}
 		st.Exclude("unspecified: " + m.Unspecified)
 		return nil
 	}
